@@ -22,6 +22,8 @@ def _ctc_lists():
     out = [()]
     for t in pool:
         out.append((t,))
+    out.append((pool[0], pool[0], pool[1]))
+    out.append((pool[1], pool[2], pool[2]))
     for i in range(len(pool)):
         for j in range(len(pool)):
             if i != j:
@@ -33,6 +35,9 @@ def cases(tier, seed):
     n = BOUNDS[tier]
     for m in sp.structures_upto(n):
         yield ('E', m)
+    for m in sp.structures_upto(4, star=True):
+        if any(b == -1 for (_p, _a, b, _k) in sh.relations(m)):
+            yield ('E', m)
     lists = _ctc_lists()
     for k in range(2, min(n, 4) + 1):
         for m in sp.structures(k):
@@ -211,11 +216,22 @@ def edits(model):
             if len(kids) > 1:
                 split = rels[:ri] + ((a, b, kids[:-1]), (a, b, kids[-1:])) + rels[ri + 1:]
                 out.append(('split-relation', (sh._replace_feature(model[0], list(path), lambda g, split=split: (g[0], split, g[2], g[3], g[4], g[5])), model[1])))
-            for (a2, b2) in ((a + 1, b), (a - 1, b), (a, b + 1), (a, b - 1)):
-                if a2 < 0 or b2 < 0:
+            cands = [(a + 1, b), (a - 1, b), (a, b + 1), (a, b - 1)]
+            if b == -1:
+                cands = [(a + 1, b), (a, len(kids)), (a, len(kids) + 1)]
+            elif b == len(kids):
+                cands.append((a, -1))
+            for (a2, b2) in cands:
+                if a2 < 0 or b2 < -1 or (a2, b2) == (a, b):
                     continue
                 changed = rels[:ri] + ((a2, b2, kids),) + rels[ri + 1:]
                 out.append(('card', (sh._replace_feature(model[0], list(path), lambda g, changed=changed: (g[0], changed, g[2], g[3], g[4], g[5])), model[1])))
+    # a constraint replaced by a copy of another one (multiplicities change, the set may not)
+    for ci in range(len(model[1])):
+        for cj in range(len(model[1])):
+            if ci != cj and model[1][ci][1] != model[1][cj][1]:
+                repl = model[1][:ci] + ((model[1][ci][0], model[1][cj][1]),) + model[1][ci + 1:]
+                out.append(('ctc-duplicate', (model[0], repl)))
     ops = sh.BINARY_LOGICAL
     for ci, (cn, t) in enumerate(model[1]):
         rest_before, rest_after = model[1][:ci], model[1][ci + 1:]
